@@ -3,7 +3,11 @@ import GrcovModel.Drv.Lcov
 namespace Grcov.Drv
 open Grcov Grcov.LlvmTools
 
-/-- `llvm.model <hexprofile,…> <hexname:hexlcov|-,…>` → `profiles=<n> exports=<m> report=<map>` -/
+def showList (l : List (Nat × Bytes)) : String :=
+  if l.isEmpty then "-" else joinWith "," (l.map fun (w, f) => s!"{w}:{toHex f}")
+
+/-- `llvm.model <hexprofile,…> <hexname:hexlcov|-,…>` → `profiles=<n|err> exports=<m> report=<map>`
+(`n` = the number of weight-1 inputs llvm-profdata takes from the list grcov writes) -/
 def handleLlvmModel : List String → String
   | [ps, bs] =>
     let go : Option String := do
@@ -16,7 +20,74 @@ def handleLlvmModel : List String → String
         | _ => none
       let rep := report true bins
       let shown := joinWith " " ((sortBytesKeys rep).map fun (k, cov) => s!"K{toHex k}={showCov cov}")
-      pure s!"profiles={(lines (mergeStdin profiles)).length} exports={(exports bins).length} report={shown}"
+      let n := match parseList (mergeStdin profiles) with
+        | some l => if l.all (fun wf => wf.1 == 1) then toString l.length else "weights"
+        | none => "err"
+      pure s!"profiles={n} exports={(exports bins).length} report={shown}"
+    go.getD "bad-op"
+  | _ => "bad-op"
+
+/-- `c20.llvm.list <hex of a list file>` → `err` | `-` | `<weight>:<hex name>,…`
+(what llvm-profdata takes from `-f <file>`) -/
+def handleLlvmList : List String → String
+  | [] => "-"
+  | [h] =>
+    match fromHex h with
+    | none => "bad-op"
+    | some data =>
+      match parseList data with
+      | none => "err"
+      | some l => showList l
+  | _ => "bad-op"
+
+/-- `c20.llvm.stdin <hexpath,…>` → hex of what grcov writes to the merge tool's stdin -/
+def handleLlvmStdin : List String → String
+  | [] => ""
+  | [ps] =>
+    match (splitList ps ",").mapM fromHex with
+    | none => "bad-op"
+    | some profiles => toHex (mergeStdin profiles)
+  | _ => "bad-op"
+
+structure ItemSpec where
+  profiles : List Bytes
+  pd : Option Bytes
+  exps : List (Option Bytes)
+
+def parseOptHex (s : String) : Option (Option Bytes) :=
+  if s == "-" then some none else (fromHex s).map some
+
+def parseItemSpec (s : String) : Option ItemSpec :=
+  match s.splitOn "|" with
+  | [ps, pd, es] => do
+    pure ⟨← (splitList ps ",").mapM fromHex, ← parseOptHex pd, ← (splitList es ",").mapM parseOptHex⟩
+  | _ => none
+
+/-- the tools as tables: the merge of an item's names gives its recorded profile; the export of
+binary `k` against that profile gives the item's `k`-th recorded export -/
+def toolsOf (bins : List Bytes) (items : List ItemSpec) : Tools where
+  merge l := (items.find? fun it => it.profiles == l.map (·.2)).bind (·.pd)
+  export_ b pd :=
+    (items.find? fun it => it.pd == some pd).bind fun it =>
+      ((bins.zip it.exps).find? fun be => be.1 == b).bind (·.2)
+
+def showCall : Bytes × Bytes → String
+  | (b, pd) => s!"{toHex b}@{toHex pd}"
+
+/-- `c20.llvm.run <branch 0|1> <hexbin,…> <item>;…` with
+`<item>` = `<hexprofile,…>|<hex merged profile | ->|<hex lcov | ->,…` (one export per binary) →
+`merges=<hex stdin>,…|exports=<hexbin>@<hexprofile>,…|report=<map>` (both logs in call order) -/
+def handleLlvmRun : List String → String
+  | [br, bs, its] =>
+    let go : Option String := do
+      let bins ← (splitList bs ",").mapM fromHex
+      let items ← (splitList its ";").mapM parseItemSpec
+      let t := toolsOf bins items
+      let ps := items.map (·.profiles)
+      let log := runLog t bins ps
+      let rep := reportRun (br == "1") t bins ps
+      let shown := joinWith " " ((sortBytesKeys rep).map fun (k, cov) => s!"K{toHex k}={showCov cov}")
+      pure s!"merges={joinWith "," ((mergeLog log).map toHex)}|exports={joinWith "," ((exportLog log).map showCall)}|report={shown}"
     go.getD "bad-op"
   | _ => "bad-op"
 
